@@ -401,6 +401,12 @@ func vfC17Run(c vfC17Case, ctx *vfCtx) *vfViolation {
 			var wins atomic.Int32
 			handles := make([]*PersistentHybridIndex, op.G)
 			start := make(chan struct{})
+			if owner < 0 && op.G%2 == 1 {
+				// the racers meet at a directory that does not exist yet (nobody owns it; what it held
+				// is not looked at again by this check): every one of them may think it creates it
+				os.RemoveAll(dir)
+				ctx.Class("race_open_on_a_directory_that_does_not_exist_yet")
+			}
 			ownedBefore := vfDirSnapshot(dir)
 			for g := 0; g < op.G; g++ {
 				wg.Add(1)
@@ -421,6 +427,9 @@ func vfC17Run(c vfC17Case, ctx *vfCtx) *vfViolation {
 				want = 0
 			}
 			got := wins.Load()
+			// while the winner still holds the directory its LOCK is there: a loser's clean-up after its
+			// failed open must not have taken the directory (or the LOCK) away from under the winner
+			lockWhileHeld := vfLockExists(dir)
 			for _, h := range handles {
 				if h != nil {
 					h.Close()
@@ -428,6 +437,9 @@ func vfC17Run(c vfC17Case, ctx *vfCtx) *vfViolation {
 			}
 			if got != want {
 				return vfFail("op %d: %d goroutines raced to open the directory (owned before: %v): %d opens succeeded, want %d", i, op.G, owner >= 0, got, want)
+			}
+			if got == 1 && owner < 0 && !lockWhileHeld {
+				return vfFail("op %d: %d goroutines raced to open the directory: one open succeeded, but there is no LOCK in the directory while the winner still holds it (a refused open cleaned up what was not its own)", i, op.G)
 			}
 			if owner >= 0 {
 				if after := vfDirSnapshot(dir); after != ownedBefore {
